@@ -474,19 +474,19 @@ Section Cmds.
       rewrite E1, E2, X1, X2. simpl; auto.
   Qed.
 
-  Lemma P_coll_set_expire t k when : forall s1 s2, RR s1 s2 ->
-    snd (coll_set_expire Compact s1 ts t k when) = snd (coll_set_expire Compact s2 ts t k when) /\
-    RR (fst (coll_set_expire Compact s1 ts t k when)) (fst (coll_set_expire Compact s2 ts t k when)).
+  Lemma P_coll_set_expire t k ow : forall s1 s2, RR s1 s2 ->
+    snd (coll_set_expire Compact s1 ts t k ow) = snd (coll_set_expire Compact s2 ts t k ow) /\
+    RR (fst (coll_set_expire Compact s1 ts t k ow)) (fst (coll_set_expire Compact s2 ts t k ow)).
   Proof.
     intros s1 s2 H. unfold coll_set_expire.
     destruct (exist_cases _ _ t k H) as [(h & a & b & E1 & E2 & G1 & G2 & G3) | [N1 N2]].
-    - rewrite E1, E2. unfold set_expire. destruct (when >=? max_u32 - 1); [simpl; auto|].
+    - rewrite E1, E2. destruct ow as [when|]; [|simpl; auto]. unfold set_expire. destruct (when >=? max_u32 - 1); [simpl; auto|].
       cbn [fst snd]. split; auto. apply R_meta_put; auto. cbn [m_hdr h_ver]. intros Y. split.
       + intros _ G. apply G1. inversion Y. congruence.
       + intros G. apply G2. inversion Y. congruence.
     - destruct (noe_header _ _ _ N1) as (h1 & u1 & x1 & E1 & X1 & [-> | [-> ->]]);
       destruct (noe_header _ _ _ N2) as (h2 & u2 & x2 & E2 & X2 & [-> | [-> ->]]);
-      rewrite E1, E2; try destruct u1 as [[? ?]|]; try destruct u2 as [[? ?]|]; simpl; auto.
+      rewrite E1, E2; try destruct u1 as [[? ?]|]; try destruct u2 as [[? ?]|]; destruct ow; simpl; auto.
   Qed.
 
   (* ---------- KV ---------- *)
@@ -527,7 +527,8 @@ Section Cmds.
     end.
   Proof.
     intros H. unfold kv_reset. destruct (ttl <=? 0); [now apply R_kv_put|].
-    destruct (set_expire fresh_hdr (ttl + sec ts)); auto. now apply R_kv_put.
+    destruct (expire_when ts ttl) as [w|]; auto.
+    destruct (set_expire fresh_hdr w); auto. now apply R_kv_put.
   Qed.
 
   Lemma P_set k v : P (CSet k v).
@@ -591,17 +592,18 @@ Section Cmds.
     cbn [fst snd]. split; auto. now apply R_kv_put.
   Qed.
 
-  Lemma P_kv_set_expire k when : forall s1 s2, RR s1 s2 ->
-    snd (kv_set_expire Compact s1 ts k when) = snd (kv_set_expire Compact s2 ts k when) /\
-    RR (fst (kv_set_expire Compact s1 ts k when)) (fst (kv_set_expire Compact s2 ts k when)).
+  Lemma P_kv_set_expire k ow : forall s1 s2, RR s1 s2 ->
+    snd (kv_set_expire Compact s1 ts k ow) = snd (kv_set_expire Compact s2 ts k ow) /\
+    RR (fst (kv_set_expire Compact s1 ts k ow)) (fst (kv_set_expire Compact s2 ts k ow)).
   Proof.
     intros s1 s2 H. unfold kv_set_expire.
     destruct (kv_cases _ _ k H) as (h1 & h2 & ov1 & ov2 & x1 & x2 & E1 & E2 & C & X & L & D).
     rewrite E1, E2. destruct (kv_cur ov1 x1) as [b|] eqn:K.
     - destruct L as (Eh & -> & -> & ->); [congruence|]. destruct ov2 as [v|]; [|simpl; auto].
+      destruct ow as [when|]; [|simpl; auto].
       unfold set_expire. destruct (when >=? max_u32 - 1); [simpl; auto|].
       cbn [fst snd]. split; auto. now apply R_kv_put.
-    - destruct (D eq_refl) as [[-> | ->] [-> | ->]]; try destruct ov1; try destruct ov2; simpl; auto.
+    - destruct (D eq_refl) as [[-> | ->] [-> | ->]]; try destruct ov1; try destruct ov2; destruct ow; simpl; auto.
   Qed.
 
   Lemma P_del ks : P (CDel ks).
